@@ -311,6 +311,21 @@ def gen_cases(run, scale):
             pass
         if sent:
             add(op, ['echo_request'], sent[0] if isinstance(sent[0], bytes) else sent[0].encode('utf-8'))
+    # directed: typed return values / output parameters of InvokeMethod (boolean text goes through
+    # unpack_boolean, other types through cimvalue; with and without PARAMTYPE, scalar and array, NULL items)
+    im = L.op_by_name('InvokeMethod:inst')
+    texts = ['TRUE', 'false', ' True ', '', ' ', 'x', '.5', '1', '0', 'INF', '20240101000000.000000+000', 'é']
+    for ty in ('boolean', 'uint8', 'real32', 'datetime', 'string', 'char16', 'reference', 'bogus', None):
+        for txt in texts:
+            a = {} if ty is None else {'PARAMTYPE': ty}
+            add(im, ['invoke:rv:%s' % ty], L.ser(L.build_response(im, [L.E('RETURNVALUE', a, [L.value(txt)])])).encode('utf-8'))
+            add(im, ['invoke:pv:%s' % ty], L.ser(L.build_response(im, [L.paramvalue('P', ty, L.value(txt))])).encode('utf-8'))
+            add(im, ['invoke:pva:%s' % ty], L.ser(L.build_response(im, [L.paramvalue('P', ty, L.E('VALUE.ARRAY', {}, [
+                L.value('TRUE'), L.E('VALUE.NULL'), L.value(txt)]))])).encode('utf-8'))
+        add(im, ['invoke:emb:%s' % ty], L.ser(L.build_response(im, [L.paramvalue(
+            'P', ty, L.value('<INSTANCE CLASSNAME="C"/>'), {'EmbeddedObject': 'instance'})])).encode('utf-8'))
+        add(im, ['invoke:refarray:%s' % ty], L.ser(L.build_response(im, [L.paramvalue('P', ty, L.E('VALUE.REFARRAY', {}, [
+            L.E('VALUE.REFERENCE', {}, [L.obj_tree(L._instpath(g))]), L.E('VALUE.NULL')]))])).encode('utf-8'))
     # transport exceptions (oracle only: the exception mapping of _cim_http is not modelled)
     for i in range(len(L.transport_exceptions())):
         add(r.choice(ops), ['transport'], b'', transport_exc=i)
